@@ -251,3 +251,246 @@ Proof.
       * exists st'. split; [exact E'|]. split; [exact K'|]. rewrite S1 in Z'. cbn [us_subst st0] in Z'.
         rewrite map_app, asize_list_app in Z'. simpl in Z'. simpl. lia.
 Qed.
+
+Lemma rgrouped_nil_inv fs : rgrouped [] fs -> fs = [].
+Proof. inversion 1. reflexivity. Qed.
+
+Lemma rgrouped_facts B es fs : rgrouped es fs -> Forall (factor_ok B) fs ->
+  length es <= length fs /\ forall k n, In (k, n) es -> 2 <= n.
+Proof.
+  induction 1 as [|k n grp es fs En Ng _ IH]; intros F; [split; [simpl; lia|intros k n []]|].
+  apply Forall_app in F. destruct F as [Fg Ff]. destruct (IH Ff) as [L K]. split.
+  - simpl. rewrite app_length. destruct grp; [congruence|simpl; lia].
+  - intros k0 n0 [H|H]; [inversion H; subst; apply (prodn_ge2 B); assumption|eauto].
+Qed.
+
+(** * from the shapes to the grouping of the factors *)
+Inductive fgrouped : list pn -> list axis -> Prop :=
+| fg_nil : fgrouped [] []
+| fg_cons k n grp es fs : n = prodn grp -> grp <> [] -> fgrouped es fs -> fgrouped ((k, n) :: es) (grp ++ fs).
+
+Lemma fgrouped_rev es fs : fgrouped es fs -> rgrouped (rev es) (rev fs).
+Proof.
+  induction 1 as [|k n grp es fs En Ng _ IH]; [constructor|]. simpl. rewrite rev_app_distr.
+  apply rgrouped_snoc; [exact IH|rewrite prodn_rev; exact En|].
+  intros E. apply Ng. rewrite <- (rev_involutive grp), E. reflexivity.
+Qed.
+
+Lemma prodn_numel vs : prodn vs = prodl' (map numel vs).
+Proof. induction vs as [|e vs IH]; [reflexivity|]. rewrite prodn_cons, IH. reflexivity. Qed.
+
+Lemma factors_empty B vs : Forall (factor_ok B) (flat_map factors_of vs) -> prodl' (map numel vs) = 1 -> flat_map factors_of vs = [].
+Proof.
+  intros F E. destruct (flat_map factors_of vs) as [|x l] eqn:El; [reflexivity|]. exfalso.
+  assert (2 <= prodn (flat_map factors_of vs)) by (rewrite El; apply (prodn_ge2 B); [exact F|discriminate]).
+  rewrite (proj2 (factors_sem (fun _ => 0) vs)), prodn_numel in H. lia.
+Qed.
+
+Lemma merges_grouped B : forall shp s, merges shp s ->
+  forall vs next goals nx, map numel vs = shp -> Forall (factor_ok B) (flat_map factors_of vs) ->
+  goal_axes s next = (goals, nx) -> fgrouped (flat_map fvn goals) (flat_map factors_of vs).
+Proof.
+  induction 1 as [shp F|g shp s _ IH]; intros vs next goals nx Ev FO Eg.
+  - simpl in Eg. inversion Eg; subst goals nx. simpl. rewrite (factors_empty B vs FO); [constructor|].
+    rewrite Ev. clear - F. induction F as [|x l Hx _ IH]; [reflexivity|]. subst x. unfold prodl' in *. simpl. rewrite IH. reflexivity.
+  - apply map_eq_app in Ev. destruct Ev as (vs1 & vs2 & -> & E1 & E2). rewrite flat_map_app in FO |- *.
+    apply Forall_app in FO. destruct FO as [FO1 FO2]. cbn [goal_axes] in Eg.
+    destruct (Nat.eqb_spec (prodl' g) 1) as [P1|P1].
+    + destruct (goal_axes s next) as [r n0] eqn:Er. inversion Eg; subst goals nx. simpl.
+      rewrite (factors_empty B vs1 FO1) by (rewrite E1; exact P1). simpl. exact (IH vs2 next r n0 E2 FO2 Er).
+    + destruct (goal_axes s (Pos.succ next)) as [r n0] eqn:Er. inversion Eg; subst goals nx. simpl.
+      apply fg_cons; [rewrite (proj2 (factors_sem (fun _ => 0) vs1)), prodn_numel, E1; reflexivity| |exact (IH vs2 _ r n0 E2 FO2 Er)].
+      intros E0. apply P1. rewrite <- E1, <- prodn_numel, <- (proj2 (factors_sem (fun _ => 0) vs1)), E0. reflexivity.
+Qed.
+
+Lemma goal_factors : forall s next goals nx, goal_axes s next = (goals, nx) ->
+  flat_map factors_of goals = paxes_axes' (flat_map fvn goals).
+Proof.
+  induction s as [|g s IH]; intros next goals nx H; simpl in H.
+  - inversion H; subst. reflexivity.
+  - destruct (Nat.eqb g 1).
+    + destruct (goal_axes s next) as [r n0] eqn:E. inversion H; subst. simpl. exact (IH _ _ _ E).
+    + destruct (goal_axes s (Pos.succ next)) as [r n0] eqn:E. inversion H; subst. simpl. f_equal. exact (IH _ _ _ E).
+Qed.
+
+Lemma tyl_factor_ok G B l ps : ctx_below G B -> tyl G l ps -> gprimes ps -> Forall (factor_ok B) l.
+Proof.
+  intros CB H. induction H as [|x l p1 ps Hx Hty Hl IH]; intros Gp; constructor.
+  - apply gprimes_app in Gp. destruct Gp as [G1 G2]. split; [exact Hx|]. split.
+    + rewrite (ty_numel _ _ _ Hty). apply gprimes_big; [exact G1|eapply ty_factor_nonempty; eauto].
+    + eapply ty_below; eauto.
+  - apply IH. apply gprimes_app in Gp. tauto.
+Qed.
+
+Lemma asize_factors es : asize_list (flat_map factors_of es) <= asize_list es.
+Proof.
+  induction es as [|e es IH]; simpl; [lia|]. rewrite asize_list_app. fold (asize_list es).
+  destruct e as [k n|l|b t a]; simpl; try lia. fold (asize_list l). lia.
+Qed.
+
+Lemma length_le_asize l : length l <= asize_list l.
+Proof. induction l as [|x l IH]; simpl; [lia|]. fold (asize_list l). pose proof (asize_pos x). lia. Qed.
+
+(** * the unification inside [reshape] on a merge target *)
+Lemma merge_unify G pss vs s next goals nx fuel :
+  ctx_good G -> ctx_below G next -> tys G vs pss -> Forall gprimes pss ->
+  merges (map numel vs) s -> goal_axes s next = (goals, nx) ->
+  asize_list vs + 3 <= fuel ->
+  exists st', unify fuel (productAxis goals) (productAxis vs) (ustate0 nx) = Ok (true, st') /\
+    (forall k T, In (k, T) (us_subst st') -> (next <= k)%positive) /\
+    asize_list (map snd (us_subst st')) <= 3 * asize_list vs + 2.
+Proof.
+  intros CG CB Te Gp Mg Eg Hf.
+  assert (FO : Forall (factor_ok next) (flat_map factors_of vs)).
+  { apply (tyl_factor_ok G next _ (concat pss) CB); [apply tys_factors; exact Te|apply gprimes_concat; exact Gp]. }
+  pose proof (merges_grouped next _ _ Mg vs next goals nx eq_refl FO Eg) as FG.
+  apply fgrouped_rev in FG.
+  destruct (rgrouped_facts next _ _ FG) as [Len N2]; [apply Forall_rev; exact FO|].
+  rewrite !rev_length in Len.
+  destruct (goal_axes_vars _ _ _ _ Eg) as [Lnx Kg].
+  pose proof Eg as Eg'. rewrite goal_axes_dense in Eg'. destruct (dense_axes_spec _ _ _ _ Eg') as (_ & _ & _ & Gnd).
+  pose proof (asize_factors vs) as Za. pose proof (length_le_asize (flat_map factors_of vs)) as Zl.
+  unfold productAxis at 1. rewrite (goal_factors _ _ _ _ Eg).
+  set (gp := flat_map fvn goals) in *. set (tF := flat_map factors_of vs) in *.
+  assert (Kgp : forall k n, In (k, n) gp -> (next <= k)%positive /\ (k < nx)%positive).
+  { intros k n H. apply Kg. apply In_fv_fvn. exists n. exact H. }
+  assert (Single : forall g n, gp = [(g, n)] -> exists st', unify fuel (Phys g n) (productAxis vs) (ustate0 nx) = Ok (true, st') /\
+            (forall k T, In (k, T) (us_subst st') -> (next <= k)%positive) /\ asize_list (map snd (us_subst st')) <= 3 * asize_list vs + 2).
+  { intros g n Egp. destruct fuel as [|fuel]; [lia|].
+    destruct (Kgp g n) as [Bg _]; [rewrite Egp; left; reflexivity|].
+    destruct (unify_bind_phys fuel g n (productAxis vs) (ustate0 nx) eq_refl) as (st1 & E1 & S1 & _).
+    { intros k' n' Ep. split; [reflexivity|]. unfold productAxis in Ep. fold tF in Ep.
+      destruct tF as [|x [|y l]] eqn:Et; try discriminate. subst x. inversion FO as [|? ? (_ & _ & Bx) _]; subst.
+      assert ((k' < next)%positive) by (apply Bx; left; reflexivity). lia. }
+    exists st1. split; [exact E1|]. rewrite S1. cbn [us_subst ustate0 app]. split.
+    - intros k T [H|[]]. inversion H; subst. exact Bg.
+    - simpl. unfold productAxis. fold tF. destruct tF as [|x [|y l]]; simpl in *; unfold asize_list in *; lia. }
+  destruct gp as [|[g n] [|gn2 gp']] eqn:Egp.
+  2:{ simpl. apply (Single g n eq_refl). }
+  - (* no target axis: [self] has no factor either *)
+    simpl in FG. assert (Et : tF = []) by (rewrite <- (rev_involutive tF), (rgrouped_nil_inv _ FG); reflexivity).
+    unfold productAxis. fold tF. rewrite Et. cbn [paxes_axes' map]. destruct fuel as [|[|fuel]]; try lia.
+    exists (ustate0 nx). split; [reflexivity|]. split; [intros k T []|simpl; lia].
+  - (* at least two target axes: both sides are products, the sweep runs *)
+    assert (Tprod : productAxis vs = Prod tF).
+    { unfold productAxis. fold tF. destruct tF as [|x [|y l]]; try reflexivity. simpl in Len. lia. }
+    rewrite Tprod. set (gpl := (g, n) :: gn2 :: gp') in *.
+    assert (Eprod : match paxes_axes' gpl with [x] => x | es => Prod es end = Prod (paxes_axes' gpl)) by reflexivity.
+    rewrite Eprod. destruct fuel as [|fuel]; [lia|]. cbn [unify]. unfold lookup_fuel. cbn [lookup bind same_object].
+    assert (Z : zero (Prod (paxes_axes' gpl)) = false).
+    { cbn [zero]. destruct (existsb zero (paxes_axes' gpl)) eqn:Ex; [|reflexivity]. exfalso. apply existsb_exists in Ex.
+      destruct Ex as (x & Hx & Zx). unfold paxes_axes' in Hx. apply in_map_iff in Hx. destruct Hx as ([k0 n0] & <- & H0).
+      simpl in Zx. apply Nat.eqb_eq in Zx. pose proof (N2 k0 n0 (proj1 (in_rev _ _) H0)). lia. }
+    set (st := if Nat.eqb (numel (Prod (paxes_axes' gpl))) (numel (Prod tF)) then ustate0 nx else u_warn (ustate0 nx)).
+    assert (Es : us_subst st = [] /\ us_next st = nx) by (unfold st; destruct (Nat.eqb _ _); split; reflexivity).
+    destruct Es as [Es1 Es2]. rewrite Z.
+    replace (rev (paxes_axes' gpl)) with (paxes_axes' (rev gpl)) by (unfold paxes_axes'; apply map_rev).
+    destruct (merge_loop next (rev tF) (rev gpl) fuel st FG) as (st' & E' & K' & Z').
+    + apply Forall_rev. exact FO.
+    + rewrite Es1. intros k T [].
+    + rewrite map_rev. apply NoDup_rev. exact Gnd.
+    + intros k0 n0 H0. apply in_rev in H0. rewrite Es1, Es2. destruct (Kgp k0 n0 H0). auto.
+    + rewrite rev_length. lia.
+    + exists st'. split; [exact E'|]. split; [exact K'|]. rewrite Es1 in Z'. simpl in Z'. rewrite rev_length in Z'.
+      assert (asize_list (rev tF) = asize_list tF).
+      { clear. induction tF as [|x l IH]; [reflexivity|]. simpl. rewrite asize_list_app. simpl. fold (asize_list l). lia. }
+      lia.
+Qed.
+
+(** * the theorem *)
+Lemma list_eq_nat_refl a : list_eq_nat a a = true.
+Proof. induction a as [|x a IH]; [reflexivity|]. simpl. rewrite Nat.eqb_refl. exact IH. Qed.
+
+Section Succeeds.
+Variable V : Type.
+Notation ptensor := (ptensor V).
+
+Lemma merges_typed_target G : forall shp s, merges shp s -> forall vs pss, map numel vs = shp -> tys G vs pss ->
+  Forall gprimes pss -> typed_target pss s.
+Proof.
+  induction 1 as [shp F|g shp s _ IH]; intros vs pss Ev Te Gp.
+  - exists []. split; [|reflexivity]. simpl. symmetry. revert shp F Ev Gp. induction Te as [|e es ps pss He Hes IHt]; intros shp F Ev Gp; [reflexivity|].
+    simpl in Ev. subst shp. inversion F as [|? ? H1 F']; subst. inversion Gp as [|? ? G1 G2]; subst. simpl.
+    rewrite (gprimes_one ps G1) by (rewrite <- (ty_numel _ _ _ He); exact H1). simpl. exact (IHt _ F' eq_refl G2).
+  - apply map_eq_app in Ev. destruct Ev as (vs1 & vs2 & -> & E1 & E2).
+    assert (Sp : exists p1 p2, pss = p1 ++ p2 /\ tys G vs1 p1 /\ tys G vs2 p2).
+    { clear - Te. revert pss Te. induction vs1 as [|e vs1 IHv]; intros pss Te; [exists [], pss; split; [reflexivity|split; [constructor|exact Te]]|].
+      simpl in Te. inversion Te as [|? ? ps pss' He Hes]; subst. destruct (IHv _ Hes) as (p1 & p2 & -> & T1 & T2).
+      exists (ps :: p1), p2. split; [reflexivity|]. split; [constructor; assumption|exact T2]. }
+    destruct Sp as (p1 & p2 & -> & T1 & T2). apply Forall_app in Gp. destruct Gp as [Gp1 Gp2].
+    destruct (IH vs2 p2 E2 T2 Gp2) as (qss & Ec & Es). exists (concat p1 :: qss). split.
+    + simpl. rewrite Ec, concat_app. reflexivity.
+    + simpl. f_equal; [|exact Es]. rewrite <- E1. clear - T1. induction T1 as [|e es ps pss He _ IHt]; [reflexivity|].
+      simpl. rewrite tsizes_app, IHt, (ty_numel _ _ _ He). reflexivity.
+Qed.
+
+Theorem reshape_merge_succeeds G pss s next (t : ptensor) :
+  wf V t -> ctx_good G -> ctx_below G next -> tys G (vaxes t) pss -> Forall gprimes pss ->
+  merges (shape V t) s ->
+  exists r nx', pt_reshape V 0 s next t = Ok (r, nx').
+Proof.
+  intros W CG CB Te Gp Mg. pose proof (merges_prod _ _ Mg) as Ep.
+  unfold pt_reshape. destruct (Nat.eqb (prodl' (shape V t)) (pnumel (paxes t)) && (prodl' (shape V t) <=? 1)).
+  - rewrite Ep, Nat.eqb_refl. cbn [bind]. destruct (pt_of_dense V s _ (default t) next) as [r nx']. eauto.
+  - cbn [bind]. rewrite Ep, Nat.eqb_refl. cbn [negb].
+    destruct (goal_axes s next) as [goals nx] eqn:Eg. cbv zeta.
+    change {| us_subst := []; us_next := nx; us_warn := false |} with (ustate0 nx).
+    set (fuel := 6 * (asize_list goals + asize_list (vaxes t)) + 12).
+    destruct (merge_unify G pss (vaxes t) s next goals nx fuel CG CB Te Gp Mg Eg) as (st' & Eu & Ks & Zs); [unfold fuel; lia|].
+    rewrite Eu. cbn [bind fst snd negb]. set (sigma := us_subst st') in *. set (f2 := fuel + length sigma + 2).
+    pose proof (merges_typed_target G _ _ Mg (vaxes t) pss eq_refl Te Gp) as TT.
+    destruct (reshape_wts V G next pss t s goals nx fuel true st' CG CB Te Gp TT Eg Eu) as (G' & Wts). fold sigma in Wts.
+    (* the physical axes of [t] are not bound *)
+    assert (Unb : forall k n, In (k, n) (paxes t) -> assoc k sigma = None).
+    { intros k n Hk. destruct (assoc k sigma) as [T|] eqn:A; [|reflexivity]. exfalso. apply assoc_In in A. pose proof (Ks _ _ A).
+      apply (wf_fv V t W) in Hk. apply in_flat_map in Hk. destruct Hk as (e & He & Hk).
+      assert ((k < next)%positive) by (apply (tys_below _ _ _ _ CB Te e He k); eapply fvn_fv; eauto). lia. }
+    assert (Egr : mapM (fun kn => pf <- prime_factors f2 sigma (Phys (fst kn) (snd kn)) ;; mapM phys_pn pf) (paxes t)
+                  = Ok (map (fun kn => [kn]) (paxes t))).
+    { clear - Unb. induction (paxes t) as [|[k n] ps IH]; [reflexivity|]. cbn [mapM map fst snd].
+      assert (E : prime_factors f2 sigma (Phys k n) = Ok [Phys k n]).
+      { unfold f2. rewrite Nat.add_comm. cbn [Nat.add prime_factors]. unfold lookup_fuel. cbn [lookup]. rewrite (Unb k n (or_introl eq_refl)).
+        cbn [bind same_object]. rewrite Pos.eqb_refl. reflexivity. }
+      rewrite E. cbn [bind mapM phys_pn]. rewrite IH; [reflexivity|]. intros k0 n0 H0. apply (Unb k0 n0). right. exact H0. }
+    rewrite Egr. cbn [bind].
+    (* the clones of the target axes *)
+    pose proof Eg as Eg'. rewrite goal_axes_dense in Eg'. destruct (dense_axes_spec _ _ _ _ Eg') as (Gn & _).
+    destruct (Fggs.Proofs.Axis_clone.mapM_total (clone f2 sigma) goals) as (vs & Evs).
+    { intros e He. apply (clone_total_typed G' sigma Wts). unfold f2, fuel.
+      assert (asize e <= 1).
+      { destruct (dense_axes_elems _ _ _ _ Eg' e He) as [->|(k & n & -> & _)]; simpl; lia. }
+      lia. }
+    rewrite Evs. cbn [bind].
+    destruct (reshape_premises V G next pss t s goals nx st' W CG CB Te Gp TT Eg) as (_ & Hm & [SZ Sz]); [exact Eu|]. fold sigma in Hm, SZ, Sz.
+    destruct (Hm (fun _ => 0)) as (rho & M & _).
+    assert (En : map numel vs = s).
+    { rewrite <- Gn. apply mapM_Forall2' in Evs. clear - Evs M SZ Sz.
+      assert (Sz' : forall e, In e goals -> sized_for sigma e) by (intros e He; apply Sz; apply in_or_app; left; exact He). clear Sz.
+      induction Evs as [|e c l l' Hec _ IHl]; [reflexivity|]. simpl. f_equal.
+      - exact (proj1 (clone_sem_models rho sigma M SZ _ _ _ (Sz' e (or_introl eq_refl)) Hec)).
+      - apply IHl. intros x Hx. apply Sz'. right. exact Hx. }
+    rewrite En, list_eq_nat_refl. cbn [negb orb].
+    assert (Eg2 : map (fun g : list pn => prodl' (map snd g)) (map (fun kn : pn => [kn]) (paxes t)) = map snd (paxes t)).
+    { rewrite map_map. apply map_ext. intros [k n]. unfold prodl'. simpl. lia. }
+    rewrite Eg2, list_eq_nat_refl. cbn [negb]. eauto.
+Qed.
+
+(** inserting / removing size-1 dimensions *)
+Corollary reshape_unit_dims_succeed G pss s next (t : ptensor) :
+  wf V t -> ctx_good G -> ctx_below G next -> tys G (vaxes t) pss -> Forall gprimes pss ->
+  nonunit (shape V t) = nonunit s ->
+  exists r nx', pt_reshape V 0 s next t = Ok (r, nx').
+Proof. intros W CG CB Te Gp H. apply (reshape_merge_succeeds G pss); trivial. apply unit_edit_merges. exact H. Qed.
+
+End Succeeds.
+
+(** the hypotheses are satisfiable: 2 x 3 -> [1; 6; 1] (a merge with two inserted size-1 dimensions) *)
+Example reshape_merge_ex :
+  merges (shape nat rs_ex) [1; 6; 1] /\ nonunit [2; 1; 3] = nonunit [1; 2; 3; 1] /\
+  exists r nx', pt_reshape nat 0 [1; 6; 1] 3 rs_ex = Ok (r, nx') /\ shape nat r = [1; 6; 1] /\ denote nat r [0; 5; 0] = 12.
+Proof.
+  split; [|split; [reflexivity|]].
+  - change (shape nat rs_ex) with ([] ++ [2; 3] ++ [] ++ []). change [1; 6; 1] with [prodl' []; prodl' [2; 3]; prodl' []].
+    repeat apply m_group. apply m_ones. constructor.
+  - do 2 eexists. split; [vm_compute; reflexivity|split; reflexivity].
+Qed.
